@@ -22,6 +22,7 @@ func runC12(run *Run, replay string) {
 	}
 	ctx := context.Background()
 	ehdCases(run)
+	attrHoverCases(run)
 	objectHoverOracle(run, bases*3)
 	literalValueHoverOracle(run, bases*4)
 	referenceHoverOracle(run, bases)
